@@ -104,7 +104,7 @@ fn add_op(s: &mut SchemaSet, o: &OpSpec) {
         } else {
             new_elems.push(anon_element(&hn, vec![el("Token", TypeRef::b("string"))]));
         }
-        let pn = if o.header_part_named_like_body_part { pname(&req_el) } else if o.part_named_as_element { hn.clone() } else if o.overlapping_part_names { format!("payloadHeader{i}") } else if o.early_header_names { format!("audit{i}") } else { format!("hdr{i}") };
+        let pn = if o.header_part_named_like_body_part && i == 0 { pname(&req_el) } else if o.part_named_as_element { hn.clone() } else if o.overlapping_part_names { format!("payloadHeader{i}") } else if o.early_header_names { format!("audit{i}") } else { format!("hdr{i}") };
         if o.separate_header_message {
             in_header_parts.push(Part { name: pn.clone(), element: QName::new(&hns, &hn) });
             in_h.push((format!("{name}Headers"), pn));
@@ -123,7 +123,7 @@ fn add_op(s: &mut SchemaSet, o: &OpSpec) {
         for i in 0..o.out_headers {
             let hn = format!("{name}RespHdr{i}");
             new_elems.push(anon_element(&hn, vec![el("Info", TypeRef::b("string"))]));
-            let pn = if o.header_part_named_like_body_part { pname(&resp_el) } else if o.part_named_as_element { hn.clone() } else if o.overlapping_part_names { format!("payloadHeader{i}") } else if o.early_header_names { format!("audit{i}") } else { format!("rhdr{i}") };
+            let pn = if o.header_part_named_like_body_part && i == 0 { pname(&resp_el) } else if o.part_named_as_element { hn.clone() } else if o.overlapping_part_names { format!("payloadHeader{i}") } else if o.early_header_names { format!("audit{i}") } else { format!("rhdr{i}") };
             if o.separate_header_message {
                 out_header_parts.push(Part { name: pn.clone(), element: QName::new(&ens, &hn) });
                 out_h.push((format!("{name}RespHeaders"), pn));
@@ -298,6 +298,45 @@ pub fn wsdl_states(depth2: bool) -> Vec<State> {
             w.pt_ops[0].output = Some(same);
         }
         out.push(State { label: "wsdl output-message-is-the-input-message".into(), depth: 1, set });
+    }
+    // the inline schema has a target namespace of its own (definitions targetNamespace=…/wsvc,
+    // schema targetNamespace=…/data): the elements live in the SCHEMA's namespace
+    {
+        const NS_D: &str = "http://zv.example/data";
+        let mut set = wsdl_with(&[OpSpec { in_headers: 1, out_headers: 1, ..base.clone() }, OpSpec { output: false, ..OpSpec::simple("DropThing") }], svc, addr);
+        {
+            let w = set.wsdl.as_mut().unwrap();
+            let old = w.tns.clone();
+            w.schema.tns = NS_D.into();
+            w.schema.prefixes.push(("d".into(), NS_D.into()));
+            w.prefixes.push(("d".into(), NS_D.into()));
+            for m in w.messages.iter_mut() {
+                for p in m.parts.iter_mut() {
+                    if p.element.ns == old {
+                        p.element.ns = NS_D.into();
+                    }
+                }
+            }
+        }
+        out.push(State { label: "wsdl inline-schema-with-its-own-target-namespace".into(), depth: 1, set });
+    }
+    // an operation called like the constructor of the client struct
+    for n in ["New", "new"] {
+        out.push(State { label: format!("wsdl operation-named-{n}"), depth: 1, set: wsdl_with(&[OpSpec { in_headers: 1, ..OpSpec::simple(n) }, OpSpec::simple("GetThing")], svc, addr) });
+    }
+    // two header messages whose parts carry ONE name (`header`), both bound by one operation
+    {
+        let mut set = wsdl_with(&[OpSpec { in_headers: 2, separate_header_message: true, headers_without_parts: true, ..base.clone() }], svc, addr);
+        {
+            let w = set.wsdl.as_mut().unwrap();
+            // split the header message in two, one part each, both parts called `header`
+            let hm = w.messages.iter().position(|m| m.name == "GetThingHeaders").unwrap();
+            let parts = w.messages[hm].parts.clone();
+            w.messages[hm].parts = vec![Part { name: "header".into(), element: parts[0].element.clone() }];
+            w.messages.push(Message { name: "GetThingMoreHeaders".into(), parts: vec![Part { name: "header".into(), element: parts[1].element.clone() }] });
+            w.b_ops[0].input.headers = vec![("GetThingHeaders".into(), "header".into()), ("GetThingMoreHeaders".into(), "header".into())];
+        }
+        out.push(State { label: "wsdl two-header-messages-with-one-part-name".into(), depth: 1, set });
     }
     // soapAction forms: another scheme than the address, an opaque URN
     for (l, a) in [("https", "https://secure.zv.example/act/GetThing"), ("urn", "urn:zv:act:GetThing")] {
